@@ -53,6 +53,15 @@ register("C18",
     "Trusted: engine/microai; the documented meaning of the flips (constraints.h) encoded as matrices in engine/props/c18.py.",
     "abstract interpretation over finite enum domains and affine gap symbols; CFG must-precede rule; who-writes / reader-provenance rules",
     "DESIGN.md §5 C18")
+register("C05",
+    "Decides admissibility of the orthogonal search heuristic for every abstract input: the decision table of bends() (128 rows, "
+    "extracted symbolically) never exceeds the free-plane minimum bend count and never reaches its assertion; the direction tables are "
+    "the rotations of the 4-cycle; estimatedCostSpecific returns exactly euclideanDist for polyline and manhattanDist + k*segmentPenalty "
+    "with k <= the minimum bends over the allowed arrival directions for orthogonal routing; turn pruning always exempts end points. "
+    "Does not decide completeness of the scan-line graph, axis-parallelism of all output segments, or optimality of the search.",
+    "Trusted: engine/microai; the 0-1 BFS reference for minimum bends in the free plane (engine/props/c05.py).",
+    "abstract interpretation of the clang AST over finite direction sets and sign atoms (decision tables) compared with a BFS reference",
+    "DESIGN.md §5 C05")
 for _p, _r in {
  "C06": "equality of route costs between an incrementally edited router and a fresh one quantifies over run-time visibility-graph contents after arbitrary edit histories; no rule over code shape is a necessary condition of it",
  "C12": "tree-ness and terminal preservation of hyperedges are invariants of dynamically rewritten run-time graphs; not visible in code shape",
